@@ -7,6 +7,7 @@ writers).  One history of reads and writes per case, through `Graph(store, ident
 
 Case = {"cfg": "graph"|"ds"|"cg"|"ro", "method": "GET"|"POST"|"POST_FORM", "fmt": "xml"|"json",
         "autocommit": bool, "dirty": bool, "hook": bool,
+        "extra": 0|1|2|3,   (store built with params={"x-extra": "1"} (1), headers={"X-Extra": "1"} (2), both (3))
         "init": [[s,p,o,g]…], "ginit": [g…],          (endpoint content before the history; g 0 = default graph)
         "ops": [op…]}
   op = ["add", s,p,o, g, via] | ["addN", [[s,p,o,g]…]] | ["remove", s?,p?,o?, g|None, via] | ["remove_graph", g]
@@ -44,9 +45,10 @@ AUDIT = "RV/C20/Audit.lean"
 DRIVER = "drv_c20"
 CASES = {"quick": 600, "thorough": 12000, "search": 4000}
 RULE = ("random histories (3-11 ops) of add / addN / pattern remove / remove_graph / Dataset.graph / update(text) / "
-        "commit / rollback and reads (8 pattern shapes, len, in, contexts, query, LIMIT/OFFSET slices) against a "
+        "commit / rollback (incl. repeated identical writes inside one uncommitted batch) and reads (8 pattern shapes, len, "
+        "in, contexts, query, LIMIT/OFFSET slices; named-graph and default-graph reads interleaved) against a "
         "loop-back SPARQL endpoint, through Graph / Dataset / ConjunctiveGraph / read-only Dataset, method GET|POST|"
-        "POST_FORM x xml|json x autocommit x dirty_reads; non-trivial = at least one write reached the endpoint and "
+        "POST_FORM x xml|json x autocommit x dirty_reads x extra params/headers given to the store; non-trivial = at least one write reached the endpoint and "
         "at least one read returned a non-empty answer; distinct = distinct (configuration, init, ops)")
 ASSUMPTIONS = [
     "the loop-back endpoint (harness/c20_endpoint.py over rdflib's own SPARQL engine, C04/C10) implements the "
@@ -248,10 +250,52 @@ def gen_case(rng, tier, i):
                     ops.append(["slice"] + p + [g, rng.choice([None, 1, 2, 5]), rng.choice([None, 0, 1, 2])])
                 else:   # fully bound (ASK) under a LIMIT
                     ops.append(["slice"] + p + [g, rng.choice([1, 2, 5]), None])
+    # ---- repeated IDENTICAL writes inside one uncommitted batch (each queues the very same request text):
+    #      add/remove/add, remove/add/remove of one triple, the same addN / update twice, duplicates in addN
+    if cfg != "ro" and rng.random() < 0.3:
+        g = wgraph()
+        if cfg == "cg" and g == 0:
+            g = G0
+        t = some_triple(g)
+        t = [x if x not in BNODES else 1 for x in t]
+        via = rng.randint(0, 1)
+        a, rm = ["add"] + t + [g, via], ["remove"] + t + [g, via]
+        k = rng.random()
+        if k < 0.3:
+            burst = [a, rm, a]
+        elif k < 0.55:
+            burst = [rm, a, rm]
+        elif k < 0.7:
+            burst = [a, rm, a, rm, a]
+        elif k < 0.85:
+            qs = [t + [g], _triple(rng, objs, False) + [g], t + [g]]
+            burst = [["addN", qs], rm, ["addN", qs]]
+        else:
+            u = ["update", g, [["I", [t]]], 0]
+            burst = [u, rm, u]
+        if rng.random() < 0.75:
+            autocommit = False
+        if rng.random() < 0.4:
+            burst.insert(rng.randint(1, len(burst) - 1), ["contains"] + t + [g, 0])   # a read inside the batch
+        burst.append(rng.choice([["commit"], ["len", g], ["triples", None, None, None, g, 0]]))
+        at = rng.randint(0, len(ops))
+        ops[at:at] = burst
+    # ---- extra request parameters / headers given to the store constructor; graph-addressed reads alternate
+    extra = rng.choice([0, 0, 1, 1, 2, 3])
+    if extra and cfg != "graph" and rng.random() < 0.7:
+        for _ in range(rng.randint(1, 2)):
+            gn = rng.choice(named)
+            alt = [["triples", None, None, None, gn, rng.randint(0, 2)], ["triples", None, None, None, 0, 0],
+                   ["len", gn], ["len", 0], ["contains"] + _mask(rng, some_triple(0)) + [0, 0]]
+            if rng.random() < 0.5:
+                alt.insert(1, ["add"] + _triple(rng, objs, False) + [0, 0])
+            at = rng.randint(0, len(ops))
+            ops[at:at] = alt
     if not autocommit and rng.random() < 0.6:
         ops.append(rng.choice([["commit"], ["rollback"], ["len", wgraph()]]))
     return {"cfg": cfg, "method": rng.choice(["GET", "POST", "POST_FORM"]), "fmt": rng.choice(["xml", "json"]),
-            "autocommit": autocommit, "dirty": dirty, "hook": hook, "init": init, "ginit": ginit, "ops": ops}
+            "autocommit": autocommit, "dirty": dirty, "hook": hook, "extra": extra, "init": init, "ginit": ginit,
+            "ops": ops}
 
 
 # ------------------------------------------------------------------ mapping API level -> store level
@@ -439,6 +483,11 @@ def run_impl(case):
     kw = {"method": case["method"], "returnFormat": case["fmt"]}
     if hook:
         kw["node_to_sparql"] = hook_nts
+    extra = case.get("extra", 0)
+    if extra & 1:
+        kw["params"] = {"x-extra": "1"}
+    if extra & 2:
+        kw["headers"] = {"X-Extra": "1"}
     if cfg == "ro":
         store = SPARQLStore(ep.url + "/query", **kw)
     else:
@@ -458,7 +507,8 @@ def run_impl(case):
     init_state = visible
     obs, viol = [], []
     stats = {"cases": 1, "cfg_" + cfg: 1, "method_" + case["method"]: 1, "fmt_" + case["fmt"]: 1,
-             "autocommit": int(case["autocommit"]), "dirty": int(dirty), "hook": int(hook)}
+             "autocommit": int(case["autocommit"]), "dirty": int(dirty), "hook": int(hook),
+             "extra_params": int(bool(case.get("extra", 0) & 1)), "extra_headers": int(bool(case.get("extra", 0) & 2))}
     reached, answered = cfg == "ro", False
 
     def bump(k, n=1):
@@ -761,12 +811,20 @@ def run_impl(case):
                     viol.append(f"transport: op {k_i} update not sent by POST")
             if not ent.get("utf8", True):
                 viol.append(f"transport: op {k_i} request body is not UTF-8")
+            if ent.get("x_param", []) != (["1"] if extra & 1 else []):
+                viol.append(f"transport: op {k_i} extra request parameter arrived as {ent.get('x_param')}, "
+                            f"the store was built with params={kw.get('params')}")
+            if ent.get("x_header") != ("1" if extra & 2 else None):
+                viol.append(f"transport: op {k_i} extra request header arrived as {ent.get('x_header')!r}, "
+                            f"the store was built with headers={kw.get('headers')}")
+            if ent["path"] == "/query" and len(ent.get("default-graph-uri", [])) > 1:
+                viol.append(f"transport: op {k_i} query sent with several default-graph-uri {ent['default-graph-uri']}")
             if ent.get("error") and exc is None:
                 viol.append(f"transport: op {k_i} endpoint rejected a request ({ent['error'][:100]}) silently")
 
     return {"obs": obs, "viol": viol, "nontrivial": bool(reached and answered),
             "key": repr((cfg, case["method"], case["fmt"], case["autocommit"], case["dirty"], case["hook"],
-                         case["init"], case["ops"])),
+                         case.get("extra", 0), case["init"], case["ops"])),
             "stats": stats}
 
 
@@ -816,6 +874,11 @@ def shrink(case):
         yield {**case, "fmt": "xml"}
     if case["hook"]:
         yield {**case, "hook": False}
+    if case.get("extra", 0):
+        yield {**case, "extra": 0}
+        if case["extra"] == 3:
+            yield {**case, "extra": 1}
+            yield {**case, "extra": 2}
     if not case["autocommit"]:
         yield {**case, "autocommit": True}
     if case["dirty"]:
